@@ -79,6 +79,10 @@ def step (s : State) : Op → Option (State × List Event)
     else if t < s.n ∧ (s.th t).status = .dead then some (s, [.deliver s.cur (.closed (s.th t).closeErr)])
     else some (s, [.deliver s.cur .illegal])
   | .mark => some ({ s with th := upd s.th s.cur { s.th s.cur with tbc := (s.th s.cur).tbc + 1 } }, [])
+  | .unmark e =>
+    -- cleanupCloseStack down to the enclosing height: pop the innermost value, call its __close with e
+    if (s.th s.cur).tbc = 0 then some (s, [])
+    else some ({ s with th := upd s.th s.cur { s.th s.cur with tbc := (s.th s.cur).tbc - 1 } }, [.tbc s.cur e])
 
 def run (s : State) : List Op → Option (State × List Event)
   | [] => some (s, [])
